@@ -48,8 +48,8 @@ def cases(tier, seed):
             items[pos:pos] = chain
         names = [nm for nm, _ in items]
         glyphs = {}
-        for nm, cp in items:
-            glyphs[nm] = {"cs": [layout_gen.box()], "comps": [], "anchors": [], "w": rng.randint(200, 700) * 1024, "h": 0, "u": [cp] if cp else []}
+        for gi, (nm, cp) in enumerate(items):
+            glyphs[nm] = {"cs": [layout_gen.box(50, 0, 100 + 10 * gi, 300 + 7 * gi)], "comps": [], "anchors": [], "w": rng.randint(200, 700) * 1024, "h": 0, "u": [cp] if cp else []}
         lib = {}
         r = rng.random()
         if r < 0.55:
@@ -57,6 +57,13 @@ def cases(tier, seed):
                                              for nm in names if rng.random() < 0.7}
         elif r < 0.65:
             lib["public.postscriptNames"] = {}
+        if len(names) >= 3 and rng.random() < 0.2:
+            # supplied names that are other glyphs' CURRENT names (a rotation / swap / chain): renaming must go through a
+            # fresh mapping, not update the tables' name-keyed data in place
+            rot = rng.sample(names, rng.randint(2, min(4, len(names))))
+            lib["public.postscriptNames"] = dict(lib.get("public.postscriptNames") or {})
+            for a_, b_ in zip(rot, rot[1:] + (rot[:1] if rng.random() < 0.7 else [])):
+                lib["public.postscriptNames"][a_] = b_
         if nonbmp_liga and rng.random() < 0.7:
             lib.pop("public.postscriptNames", None)       # names are then derived from the code points
         kwargs_on = {}
@@ -119,6 +126,18 @@ def execute(case):
             otf = ufo2ft.compileOTF(font, cffVersion=2 if case["flavor"] == "cff2" else 1, **kw)
         data, f2 = project.save_reload(otf)
         fonts[variant] = (data, f2)
+    def drawn(f):
+        from fontTools.pens.recordingPen import RecordingPen
+
+        gs = f.getGlyphSet()
+        out = []
+        for n in f.getGlyphOrder():
+            pen = RecordingPen()
+            gs[n].draw(pen)
+            out.append(repr(pen.value))
+        return out
+
+    outlines_same = drawn(fonts["off"][1]) == drawn(fonts["on"][1])
     exp = _expect_rename(case)
     toff, ton = project.table_digests(fonts["off"][0]), project.table_digests(fonts["on"][0])
     diff = sorted(t for t in set(toff) | set(ton) if toff.get(t) != ton.get(t))
@@ -127,12 +146,12 @@ def execute(case):
         # keepGlyphNames = False: TTF / CFF2 carry no names (post format 3); CFF 1 keeps them un-renamed
         return [{"tid": case["cid"], "off": [cps(n) for n in off], "on": [cps(n) for n in off], "glyphs": [], "ps": [], "usePs": False,
                  "expectRename": False, "diffTables": [t for t in diff if t not in ("post",)] if case["flavor"] != "cff" else diff,
-                 "_mode": case["mode"]}]
+                 "outlinesSame": outlines_same, "_mode": case["mode"]}]
     ps = case["ufo"]["lib"].get("public.postscriptNames")
     return [{"tid": case["cid"], "off": [cps(n) for n in off], "on": [cps(n) for n in on],
              "glyphs": [{"name": cps(n), "uni": (g["u"][0] if g["u"] else -1)} for n, g in case["ufo"]["glyphs"].items()],
              "ps": [{"name": cps(k), "value": cps(v)} for k, v in (ps or {}).items()], "usePs": bool(ps),
-             "expectRename": bool(exp), "diffTables": diff, "_mode": case["mode"], "_sig": [case["cid"]]}]
+             "expectRename": bool(exp), "diffTables": diff, "outlinesSame": outlines_same, "_mode": case["mode"], "_sig": [case["cid"]]}]
 
 
 def nontrivial(rec):
